@@ -84,6 +84,8 @@ func derivesFrom(v, src ssa.Value) bool {
 			return visit(x.X, d+1)
 		case *ssa.TypeAssert:
 			return visit(x.X, d+1)
+		case *ssa.ChangeInterface:
+			return visit(x.X, d+1)
 		case *ssa.Convert:
 			return visit(x.X, d+1)
 		case *ssa.UnOp:
